@@ -13,7 +13,7 @@ bounds-checks every word written).  Results are compared projectively with
 ec_ws_cmp against the expected point built by ec_ws_new_point, so no field
 inversion is needed in the quick tier.
 """
-from ..ceval import CProgram, Machine, CError, Undecided, P, CT, Shard, run_sharded, VOID, NULL
+from ..ceval import CProgram, Machine, CError, Undecided, P, CT, Shard, run_sharded, VOID, NULL, resolve
 from ..core import AnalysisError
 
 SRC = "src/ec_ws.c"
@@ -139,7 +139,7 @@ class Curve(object):
         self.m = m = Machine(prog, SRC, budget=200000000)
         # the scrambled generator tables are only used by generator multiplication, which these rows do not call
         for nm in ("p256", "p384", "p521"):
-            m.models["ec_scramble_g_" + nm] = lambda mm, a: mm.alloc(8, "prot_g", "heap", init=0)
+            m.models["ec_scramble_g_" + nm] = lambda mm, a: mm.alloc(8 * 1024, "prot_g", "heap", init=0)
             m.models["free_g_" + nm] = lambda mm, a: None
         pp = m.alloc(8, "pctx", "heap", init=0)
         rc = m.call("ec_ws_new_context", [pp, self.buf(self.p), self.buf(self.b), self.buf(self.n), self.len, 0x1234])
@@ -362,6 +362,64 @@ def blind_rows(prog, sh=None):
     return n, wrong
 
 
+def dispatch_rows(prog, sh=None):
+    """ec_ws_scalar: the generator fast path and the generic ladder accept the same scalars.
+
+    The point arithmetic is replaced by no-ops and the generic ladder by a recorder; what is interpreted for real is
+    the dispatch: is-generator test, the fast path's own length logic, blinding, the fallback."""
+    sh = sh or Shard()
+    wrong = []
+    n = 0
+    if not CURVES:
+        raise Undecided("curve constants were not loaded")
+    for name in ("p256", "p384", "p521"):
+        olen = (CURVES[name]["p"].bit_length() + 7) // 8
+        for slen in (1, olen - 1, olen, olen + 1, olen + 8, 2 * olen, 100):
+            for which in ("G", "2G"):
+                for seed in (0, 0xABCDEF0123456789):
+                    if not sh.take():
+                        continue
+                    C = Curve(prog, name)
+                    m = C.m
+                    seen = []
+
+                    def m_ec_scalar(mm, a, seen=seen, C=C):
+                        x, y, z = a[3], a[4], a[5]
+                        words = (C.p.bit_length() + 63) // 64
+                        seen.append(tuple(mm.concrete_bytes(q, 8 * words) for q in (x, y, z)))
+                        return 0
+                    m.models["ec_scalar"] = m_ec_scalar
+                    for f in ("ec_mix_add", "ec_full_add", "ec_full_double"):
+                        m.models[f] = lambda mm, a: None
+                    m.models["gather"] = lambda mm, a: None
+                    A = C.G if which == "G" else ref_add(C.G, C.G, C.p)
+                    rc, q = C.point(A)
+                    before = None
+                    k = bytes([0xFF] * slen)
+                    rc = m.call("ec_ws_scalar", [q, m.alloc_bytes(list(k), "k"), slen, seed])
+                    n += 1
+                    if rc != 0:
+                        wrong.append("%s: ec_ws_scalar(%s, %d-byte scalar, seed %s) returns code %r (the same scalar is accepted for other points)" % (
+                            name, which, slen, "set" if seed else "0", rc))
+                        continue
+                    if which == "2G" and len(seen) != 1:
+                        wrong.append("%s: the generic ladder ran %d times for a non-generator point" % (name, len(seen)))
+                    if seen and seed == 0:
+                        # without blinding the ladder must receive the caller's point, not a clobbered one
+                        rc2, e = C.point(A)
+                        st_t = resolve(m.tu.parse("EcPoint"))
+                        words = (C.p.bit_length() + 63) // 64
+                        want = []
+                        for f in ("x", "y", "z"):
+                            off, ft = st_t.fields[f]
+                            ptr = m.load(P(e.obj, e.off + off), PTR)
+                            want.append(m.concrete_bytes(ptr, 8 * words))
+                        if tuple(want) != seen[0]:
+                            wrong.append("%s: for a %d-byte scalar the generic ladder receives a point that is not the caller's %s "
+                                         "(overwritten by the fast path)" % (name, slen, which))
+    return n, wrong
+
+
 def ec_tables(check, ctx, rule="K-pw"):
     CURVES.clear()
     CURVES.update(read_curves(ctx.repo))
@@ -369,6 +427,7 @@ def ec_tables(check, ctx, rule="K-pw"):
     prog.tu(SRC)
     groups = (("group_law", "group_rows_thorough" if ctx.tier == "thorough" else "group_rows",
                "ec_ws_double / ec_ws_add / ec_ws_neg / ec_ws_cmp / clone / copy on every case of the group law (doubling, distinct points, equal points, inverse points, infinity on either side, projective operands) for P-256, P-384, P-521 and P-224; ec_ws_new_point refuses off-curve points", 4),
+              ("scalar_dispatch", "dispatch_rows", "ec_ws_scalar accepts every scalar length for the generator exactly as for any other point: a scalar too long for the precomputed generator tables goes through the generic ladder with the point intact", 12),
               ("blind_scalar", "blind_rows", "blind_scalar_factor returns k + R*order for scalars shorter than, as long as and longer than the order, without writing outside its buffers", 9))
     total = 0
     for key, fname, what, shards in groups:
